@@ -2,9 +2,11 @@ package sasl
 
 import (
 	"bufio"
+	"bytes"
 	"context"
 	"crypto/tls"
 	"encoding/base64"
+	"encoding/json"
 	"fmt"
 	"log"
 	"net"
@@ -13,6 +15,7 @@ import (
 	"strings"
 	"sync"
 	"time"
+	"unicode/utf8"
 )
 
 // Server represents a SASL authentication server
@@ -353,6 +356,16 @@ func (s *Server) handlePlain(conn net.Conn, id, resp string, respProvided bool) 
 		return
 	}
 
+	// The user name is echoed in the one-line answer and sent to the auth server as JSON: refuse names that
+	// would break either (control characters, invalid UTF-8) instead of altering them
+	if strings.ContainsFunc(username, func(r rune) bool { return r < 0x20 || r == 0x7f }) ||
+		!utf8.ValidString(username) || !utf8.ValidString(password) {
+		response := fmt.Sprintf("FAIL\t%s\treason=Invalid credentials format\n", id)
+		_, _ = conn.Write([]byte(response))
+		log.Printf("SASL sent: %s", strings.TrimSpace(response))
+		return
+	}
+
 	log.Printf("PLAIN authentication attempt for user: %s", username)
 
 	// Authenticate via external API
@@ -403,11 +416,18 @@ func (s *Server) authenticate(username, password string) bool {
 		email = username + "@" + s.domain
 	}
 
-	// Prepare JSON request
-	requestBody := fmt.Sprintf(`{"email":"%s","password":"%s"}`, email, password)
+	// Prepare JSON request (marshalled, so that quotes and backslashes in the credentials cannot alter it)
+	requestBody, err := json.Marshal(struct {
+		Email    string `json:"email"`
+		Password string `json:"password"`
+	}{email, password})
+	if err != nil {
+		log.Printf("Failed to encode authentication request: %v", err)
+		return false
+	}
 
 	// Create HTTP request
-	req, err := http.NewRequest("POST", s.authURL, strings.NewReader(requestBody))
+	req, err := http.NewRequest("POST", s.authURL, bytes.NewReader(requestBody))
 	if err != nil {
 		log.Printf("Failed to create HTTP request: %v", err)
 		return false
